@@ -424,3 +424,133 @@ def tub_pair(K, T, blackhole_after=None, horizon=60.0):
         res["timers_left_after_stop"] = sum(len(v) for b in brokers for v in timer_calls(b).values())
     restore()
     return res
+
+
+# ---------------------------------------------------------------- PING / PONG while the receiver discards a rejected sequence
+from foolscap import schema as _schema
+from foolscap.constraint import IConstraint, ByteStringConstraint
+from foolscap.tokens import INT, OPEN, CLOSE, ABORT, Violation
+
+
+def tk(n, ty, body=b""):
+    """bytes of one token with header n"""
+    return (int2b128_bytes(n) if n else b"") + ty + body
+
+
+def tINT(n):
+    return tk(n, INT)
+
+
+def tSTR(s):
+    return tk(len(s), STRING, s)
+
+
+def tOPEN(n):
+    return tk(n, OPEN)
+
+
+def tCLOSE(n):
+    return tk(n, CLOSE)
+
+
+def tABORT(n):
+    return tk(n, ABORT)
+
+
+def flat(*parts):
+    out = []
+    for p in parts:
+        if isinstance(p, list):
+            out.extend(flat(*p))
+        else:
+            out.append(p)
+    return out
+
+
+def LST(n, *body):
+    return flat(tOPEN(n), tSTR(b"list"), list(body), tCLOSE(n))
+
+
+class EvReceiver(storage.StorageBanana):
+    """receiving Banana that records objects / violations / drops instead of raising"""
+
+    def __init__(self):
+        storage.StorageBanana.__init__(self)
+        self.events = []
+
+    def receiveChild(self, obj, ready_deferred):
+        self.events.append(("object", repr(obj)))
+
+    def reportViolation(self, why):
+        self.events.append(("violation", str(getattr(why.value, "where", ""))))
+
+    def reportReceiveError(self, f):
+        self.events.append(("dropped", str(f.value)[:80]))
+
+    def sendError(self, msg):
+        self.events.append(("sendError", str(msg)[:80]))
+
+
+def violating_streams():
+    """(name, root constraint, token list): messages that are rejected / aborted part-way, at several depths,
+    each followed by a good message"""
+    S = _schema
+    LL = S.ListOf(S.ListOf(int))
+    LLL = S.ListOf(S.ListOf(S.ListOf(int)))
+    out = []
+    out.append(("wrong type, depth 1", S.ListOf(int), flat(
+        LST(0, tINT(1), tSTR(b"oops"), tINT(2), tINT(3)), LST(1, tINT(4)))))
+    out.append(("wrong type, depth 2", LL, flat(
+        LST(0, LST(1, tINT(1), tINT(2)),
+            LST(2, tINT(3), tSTR(b"oops"), tINT(4), LST(3, tINT(5), tINT(6)), tINT(7)),
+            LST(4, tINT(8))),
+        LST(5, LST(6, tINT(9))))))
+    out.append(("wrong type, depth 3", LLL, flat(
+        LST(0, LST(1, LST(2, tINT(1)), LST(3, tINT(2), tSTR(b"x" * 130), tINT(3)), LST(4, tINT(4))), LST(5, LST(6, tINT(5)))),
+        LST(7, LST(8, LST(9, tINT(6)))))))
+    out.append(("list too long, depth 1", S.ListOf(int, maxLength=3), flat(
+        LST(0, tINT(1), tINT(2), tINT(3), tINT(4), tINT(5), tINT(6)), LST(1, tINT(7), tINT(8)))))
+    out.append(("list too long, depth 2", S.ListOf(S.ListOf(int, maxLength=2)), flat(
+        LST(0, LST(1, tINT(1)), LST(2, tINT(1), tINT(2), tINT(3), tINT(4)), LST(3, tINT(5))), LST(4, LST(5, tINT(6))))))
+    out.append(("wrong opentype, depth 1", S.ListOf(int), flat(
+        [tOPEN(0), tSTR(b"dict"), tSTR(b"a"), tINT(1), tSTR(b"b"), LST(1, tINT(2)), tCLOSE(0)], LST(2, tINT(3)))))
+    out.append(("wrong opentype, depth 2", LL, flat(
+        LST(0, LST(1, tINT(1)), [tOPEN(2), tSTR(b"tuple"), tINT(2), LST(3, tINT(3)), tCLOSE(2)], LST(4, tINT(4))),
+        LST(5, LST(6, tINT(5))))))
+    out.append(("string too long", S.ListOf(ByteStringConstraint(3)), flat(
+        LST(0, tSTR(b"ab"), tSTR(b"much too long \x8e\x8f"), tSTR(b"cd")), LST(1, tSTR(b"ef")))))
+    out.append(("sender ABORT, depth 1", None, flat(
+        LST(0, tINT(1), tABORT(0), tINT(2), tSTR(b"z")), LST(1, tINT(3)))))
+    out.append(("sender ABORT, depth 2", None, flat(
+        LST(0, tINT(1), LST(1, tINT(2), tABORT(1), tINT(3)), tINT(4)), LST(2, tINT(5)))))
+    out.append(("sender ABORT, depth 3", None, flat(
+        LST(0, LST(1, LST(2, tINT(1), tABORT(2), LST(3, tINT(2)), tINT(3)), tINT(4)), tINT(5)), LST(4, tINT(6)))))
+    out.append(("two rejected messages in a row", S.ListOf(int), flat(
+        LST(0, tINT(1), tSTR(b"a"), tINT(2)), LST(1, LST(2, tINT(3)), tINT(4)), LST(3, tINT(5)))))
+    return out
+
+
+def decode_events(constraint, data, chunks=None):
+    """feed bytes to a receiver whose root accepts `constraint`; -> dict(events, written, lost, exc)"""
+    set_mode(True)
+    r = EvReceiver()
+    tr = FT()
+    r.transport = tr
+    exc = None
+    with E.quiet():
+        r.connectionMade()
+        if constraint is not None:
+            r.receiveStack[-1].constraint = IConstraint(constraint)
+        try:
+            pos = 0
+            for n in (chunks or [len(data)]):
+                r.dataReceived(data[pos:pos + n])
+                pos += n
+            if pos < len(data):
+                r.dataReceived(data[pos:])
+            E.turn()
+        except Exception as e:
+            exc = "%s: %s" % (type(e).__name__, str(e)[:100])
+    res = dict(events=list(r.events), written=b"".join(x for (_, x) in tr.out), lost=len(tr.lose_at), exc=exc)
+    restore()
+    return res
